@@ -4,10 +4,11 @@
 cd "$(dirname "$0")/.."
 export GOFLAGS=-mod=mod GOPROXY=off GOSUMDB=off GOTOOLCHAIN=local; unset GOWORK
 j=6; [ "$1" = "-j" ] && j=$2
-(cd checker && go build -o ../bin/c4echeck .) || exit 2
+mkdir -p /tmp/c4e-regress-bin; (cd checker && go build -o /tmp/c4e-regress-bin/c4echeck.$$ .) || exit 2
+export C4E_BIN=/tmp/c4e-regress-bin/c4echeck.$$
 rc=0
 for i in $(seq -w 1 20); do
-  out=$(bin/c4echeck -prop C$i -tier quick -repo /repo -verif "$(pwd)" -out /tmp/c4e-regress-out 2>&1) || { rc=1; echo "$out" | grep -A1 "^VIOLATED\|^UNDECIDED" | cut -c1-400; }
+  out=$($C4E_BIN -prop C$i -tier quick -repo /repo -verif "$(pwd)" -out /tmp/c4e-regress-out 2>&1) || { rc=1; echo "$out" | grep -A1 "^VIOLATED\|^UNDECIDED" | cut -c1-400; }
 done
 rm -rf /tmp/c4e-regress-out
 echo "== unchanged tree done rc=$rc"
@@ -15,4 +16,6 @@ python3 tools/replay_seeded.py -j $j --quiet || rc=1
 echo "== seeded replay done"
 python3 tools/replay_refactors.py -j $j --quiet || rc=1
 echo "== refactor replay done rc=$rc"
+if [ "$MATRIX" = "1" ]; then python3 selftest/run.py --jobs $j --quiet || rc=1; echo "== variant matrix done rc=$rc"; fi
+rm -f $C4E_BIN
 exit $rc
